@@ -97,7 +97,7 @@ func (t *Enum) Validate(root *Root) (errs []error) {
 				errs = append(errs, validateName(t.core, "enum value", string(ev.Value), ev.line, ev.col)...)
 			}
 			for _, du := range ev.Directives {
-				errs = append(errs, root.validateDirUse(t.Name()+"."+string(ev.Value), Locate(ev), du)...)
+				errs = append(errs, root.validateSchemaDirUse(t.Name()+"."+string(ev.Value), Locate(ev), du)...)
 			}
 		}
 	} else {
